@@ -634,7 +634,11 @@ fn merge_raw_sum_states_to_batches(
     Ok(batches)
 }
 
-/// Raw-key classification for normalize_raw / scalar_to_raw.
+/// Raw (allocation-free) encoding of one group-key value. NULL is carried out
+/// of band: every u64 bit pattern is a legitimate Int64 value (-1 is
+/// `u64::MAX`), so no in-band sentinel can stand for NULL without merging the
+/// NULL group into some integer's group.
+#[derive(Clone, Copy, PartialEq, Eq, Hash)]
 enum RawKey {
     Value(u64),
     Null,
@@ -1171,10 +1175,10 @@ fn scalar_to_f64(value: &ScalarValue) -> Option<f64> {
     }
 }
 
-/// Convert ScalarValue to a raw u64 key (matches TypedArrayAccessor::raw_key)
-fn scalar_to_raw_key(value: &ScalarValue) -> u64 {
-    match value {
-        ScalarValue::Null => u64::MAX,
+/// Convert ScalarValue to a raw key (matches TypedArrayAccessor::raw_key)
+fn scalar_to_raw_key(value: &ScalarValue) -> RawKey {
+    RawKey::Value(match value {
+        ScalarValue::Null => return RawKey::Null,
         ScalarValue::Int64(v) => *v as u64,
         ScalarValue::Int32(v) => *v as u64,
         ScalarValue::Float64(v) => v.into_inner().to_bits(),
@@ -1193,7 +1197,7 @@ fn scalar_to_raw_key(value: &ScalarValue) -> u64 {
             hash_scalar_value(value, &mut hasher);
             std::hash::Hasher::finish(&hasher)
         }
-    }
+    })
 }
 
 fn scalar_to_i64(value: &ScalarValue) -> Option<i64> {
@@ -1297,11 +1301,38 @@ impl<'a> TypedArrayAccessor<'a> {
         }
     }
 
-    /// Extract a u64 key for perfect hash indexing (no allocation).
+    /// Is the value at `row` NULL?
+    #[inline]
+    fn is_null(&self, row: usize) -> bool {
+        match self {
+            TypedArrayAccessor::Int64(arr) => arr.is_null(row),
+            TypedArrayAccessor::Int32(arr) => arr.is_null(row),
+            TypedArrayAccessor::Float64(arr) => arr.is_null(row),
+            TypedArrayAccessor::String(arr) => arr.is_null(row),
+            TypedArrayAccessor::Date32(arr) => arr.is_null(row),
+            TypedArrayAccessor::DictString(arr) => arr.is_null(row),
+            TypedArrayAccessor::Other(arr) => arr.is_null(row),
+        }
+    }
+
+    /// Extract a raw key for perfect hash indexing (no allocation).
+    /// NULL is `RawKey::Null`, never a u64 bit pattern: the old in-band
+    /// `u64::MAX` sentinel is also the encoding of the integer/date -1, which
+    /// put NULL-keyed rows into the -1 group.
+    #[inline]
+    fn raw_key(&self, row: usize) -> RawKey {
+        if self.is_null(row) {
+            RawKey::Null
+        } else {
+            RawKey::Value(self.raw_key_bits(row))
+        }
+    }
+
+    /// u64 encoding of the (non-NULL) value at `row`.
     /// Different values map to different u64 values.
     /// For strings, we hash the first 8 bytes plus length for a fast key.
     #[inline]
-    fn raw_key(&self, row: usize) -> u64 {
+    fn raw_key_bits(&self, row: usize) -> u64 {
         match self {
             TypedArrayAccessor::DictString(arr) => {
                 if arr.is_null(row) {
@@ -1457,9 +1488,9 @@ const PERFECT_HASH_MAX_GROUPS: usize = 256;
 pub struct AggregationState {
     /// Fixed-array accumulators indexed by perfect hash (low cardinality fast path)
     perfect_accs: Vec<Vec<AccumulatorState>>,
-    /// Map from raw key (u64) → perfect hash index (one per group-by column)
-    /// Uses u64 keys to avoid ScalarValue allocation in the hot path
-    raw_key_maps: Vec<HashMap<u64, u8>>,
+    /// Map from raw key → perfect hash index (one per group-by column)
+    /// Uses raw keys to avoid ScalarValue allocation in the hot path
+    raw_key_maps: Vec<HashMap<RawKey, u8>>,
     /// Actual values per column, id-indexed — used to VERIFY raw-key hits for
     /// collision-prone key encodings (strings pack only 8 bytes + length:
     /// "Supplier#000000001" and "...002" collide and would merge groups).
